@@ -20,6 +20,7 @@ Supports expressions like:
 import ast
 import re
 import statistics
+import types
 import warnings
 from datetime import date as date_type
 from typing import Any, Dict, List, Optional, Set, Callable, Union
@@ -921,7 +922,12 @@ class TransactionEvaluator:
         raise ExpressionError(f"Cannot evaluate node type: {type(node).__name__}")
 
     def _eval_Expression(self, node: ast.Expression) -> Any:
-        return self.evaluate(node.body)
+        value = self.evaluate(node.body)
+        if isinstance(value, types.GeneratorType):
+            # A bare generator expression as the whole let:/field:/tag value means the
+            # list of its items - never hand the generator object itself to callers.
+            value = list(value)
+        return value
 
     def _eval_Constant(self, node: ast.Constant) -> Any:
         return node.value
